@@ -60,8 +60,13 @@ func (c termCase) desc() string {
 
 func genCase(t *rapid.T) termCase {
 	var c termCase
-	c.Ending = rapid.SampledFrom([]string{"max-duration", "max-duration", "own-duration", "limit", "cancel-before", "cancel-during-setup", "cancel-mid-run", "cancel-mid-run", "setup-fail", "setup-panic"}).Draw(t, "ending")
+	c.Ending = rapid.SampledFrom([]string{"max-duration", "max-duration", "own-duration", "own-duration", "limit", "cancel-before", "cancel-during-setup", "cancel-mid-run", "cancel-mid-run", "setup-fail", "setup-panic"}).Draw(t, "ending")
 	c.Blocking = rapid.SampledFrom([]string{"instant", "sleep", "sleep", "blocked"}).Draw(t, "blocking")
+	if c.Ending == "own-duration" && rapid.Bool().Draw(t, "blockedAtOwnEnd") {
+		// iterations still blocked when the trigger's own schedule ends: the completion timeout, not
+		// max-duration, bounds the wait
+		c.Blocking = "blocked"
+	}
 	opts := vlib.ShapeOpts{MaxConcurrency: 16, MaxPerTick: 20}
 	switch c.Ending {
 	case "max-duration":
@@ -276,6 +281,19 @@ func judge(c termCase, obs observation) string {
 		if late := obs.lateEntry - c.Shape.ScheduledStop(); late > lateMargin {
 			return fmt.Sprintf("an iteration started %s after the run began, %s later than the scheduled stop %s (min of max-duration %s and the trigger's own duration %s, less 10 ms)",
 				obs.lateEntry.Round(time.Millisecond), late.Round(time.Millisecond), c.Shape.ScheduledStop(), c.Shape.MaxDuration, c.Shape.OwnDuration)
+		}
+		// "then waits for in-flight iterations for at most the completion timeout": once triggering has
+		// stopped, Do returns when the last iteration has finished or the timeout expired, not at some
+		// later stop condition (those are >= 5 s away, the margin is 2 s)
+		due := max(c.Shape.ScheduledStop(), obs.lastExit)
+		what := "the last iteration finished"
+		if c.Blocking == "blocked" {
+			due = c.Shape.ScheduledStop() + time.Duration(c.WaitMs)*time.Millisecond
+			what = "the completion timeout expired"
+		}
+		if over := obs.elapsed - due; over > lateMargin {
+			return fmt.Sprintf("triggering was due to stop %s after the run began (min of max-duration %s and the trigger's own duration %s, less 10 ms) and %s at %s, but Do only returned after %s (%s later)",
+				c.Shape.ScheduledStop(), c.Shape.MaxDuration, c.Shape.OwnDuration, what, due.Round(time.Millisecond), obs.elapsed.Round(time.Millisecond), over.Round(time.Millisecond))
 		}
 	case "limit":
 		if uint64(obs.entries) > c.Shape.MaxIterations {
